@@ -528,6 +528,42 @@ def callable_initial_overwrites_column(case, outcome, atoms):
             if not (a[0] == 'rows' and a[1] == 'value_changed' and a[3] in uids)]
 
 
+@explainer
+def percent_literal_in_deferred_constraint_sql(case, outcome, atoms):
+    """A conditional UniqueConstraint is lowered through
+    connection.schema_editor(collect_sql=True); its partial-index statement is
+    deferred and, when the editor exits in collect mode, formatted with
+    `sql % ()`.  A string value containing '%' in the condition (name IN ('y',
+    '50%')) makes that formatting raise TypeError('not enough arguments for
+    format string') before any SQL runs."""
+    def has_percent(obj):
+        if isinstance(obj, str):
+            return '%' in obj
+        if isinstance(obj, dict):
+            return any(has_percent(v) for v in obj.values())
+        if isinstance(obj, list):
+            return any(has_percent(v) for v in obj)
+        return False
+
+    def conditional_unique_with_percent(constraints):
+        return any(c.get('type') == 'unique' and c.get('condition') and
+                   has_percent(c['condition']) for c in constraints or [])
+    trig = False
+    try:
+        for sp in _trail(case):
+            from . import specs as S
+            for _a, _n, m in S.iter_models(sp):
+                if conditional_unique_with_percent(m['constraints']):
+                    trig = True
+    except Exception:
+        pass
+    if not trig:
+        return atoms
+    return [a for a in atoms
+            if not (a[0] == 'exception' and a[2] == 'TypeError' and
+                    'not enough arguments for format string' in str(a[-1]))]
+
+
 # ---------------------------------------------------------------------------
 # C03 findings
 # ---------------------------------------------------------------------------
@@ -699,6 +735,12 @@ def c03_flags(case, outcome=None):
                 rebuild.add(u)
             if _is_rebuilding(m) and m['kind'] in ('AddField', 'ChangeField'):
                 merging_rebuild.add(u)
+            if m['kind'] == 'RenameField':
+                # renaming a column is a table rebuild on SQLite too, and shares it
+                mm_ = S.get_model(trail[i], m['app'], m['model'])
+                f_ = S.get_field(mm_, m['old']) if mm_ else None
+                if f_ is not None and f_['kind'] != 'ManyToMany':
+                    merging_rebuild.add(u)
             if m['kind'] == 'ChangeField' and 'db_column' in m['attrs']:
                 colchg.add(u)
             if m['kind'] == 'RenameField':
@@ -1242,6 +1284,48 @@ def stored_signature_keeps_explicit_defaults(case, outcome, atoms):
                if s['type'] == 'evolve' for m in s['seq']):
         return atoms
     return [a for a in atoms if a[0] != 'stored_sig_unequal']
+
+
+@explainer
+def evolution_without_effect_never_recorded(case, outcome, atoms):
+    """An evolution whose mutations leave the signature as it is (e.g. a
+    ChangeMeta to the value the model already has) requires nothing on an
+    installed database, so no run ever records its label, while a fresh install
+    records the whole SEQUENCE: the sets of recorded labels differ by exactly
+    those labels."""
+    import json
+    from . import history as H
+    from . import refmodel as R
+    h = case.get('history') or {}
+    try:
+        vers = H.versions(h)
+    except Exception:
+        return atoms
+    noop = set()
+    vi = 0
+    for s_ in h.get('steps', []):
+        vi += 1
+        if s_['type'] != 'evolve':
+            continue
+        try:
+            before = vers[vi - 1]['spec']
+            after = R.apply_all(before, s_['seq'], strict=False)
+            strip = lambda sp: json.dumps(  # noqa: E731
+                {a: {n: {k: v for k, v in m.items()} for n, m in app['models'].items()}
+                 for a, app in sp['apps'].items()}, sort_keys=True)
+            if strip(before) == strip(after):
+                noop.add((s_['app'], s_['label']))
+        except Exception:
+            continue
+    if not noop:
+        return atoms
+    out = []
+    for a in atoms:
+        if a[0] == 'labels_differ' and not a[3] and a[2] and \
+                all(tuple(x) in noop for x in a[2]):
+            continue
+        out.append(a)
+    return out
 
 
 @explainer
